@@ -1,1 +1,535 @@
-import Pfb.C18.Model
+/-
+  Pfb.C18.Props — property C18 "Import renaming is prefix-exact and keeps local
+  names bound", over the model in `Pfb.C18.Model`.
+
+  Component level (`List Str` = the result of `str.split('.')`):
+    C18_exact, C18_keeps_local, C18_renames_together
+  String level (`Import.replace` / `Import.split` as coded):
+    C18_under_iff, C18_exact_str, C18_keeps_local_str, C18_split_binds, C18_as_iff,
+    C18_alias_wellformed_partial
+  Body text (`re.sub(r"\bK\b", V, text)`):
+    C18_wordReplace_spec, C18_wordReplace_ident, C18_ref_rewritten
+  Maps (several entries, nested prefixes, iteration order):
+    C18_no_match_unchanged, C18_first_match, C18_fullname_components, C18_alias_invariant,
+    C18_lookup_preserved
+  Witnesses (`decide`): the character-prefix traps, the nested-map orders, and the
+  excluded regions (known findings C18-D1, -D2, -D3).
+-/
+import Pfb.C18.Lemmas
+namespace Pfb.C18
+open Pfb
+
+/-! ## 1. prefix-exactness, component level -/
+
+/-- `Import.replace` changes the import iff OLD is a *component* prefix of the full name (and NEW differs
+    from OLD); then the full name is NEW followed by the remaining components; otherwise nothing changes. -/
+theorem C18_exact (f a old new : List Str) :
+    (replaceC f a old new ≠ (f, a) ↔ (old <+: f ∧ new ≠ old)) ∧
+    (old <+: f → (replaceC f a old new).1 = new ++ f.drop old.length) ∧
+    (¬ old <+: f → replaceC f a old new = (f, a)) := by
+  have key : ∀ l : List Str, old <+: l → old ++ l.drop old.length = l := by
+    rintro l ⟨t, rfl⟩; simp
+  refine ⟨?_, ?_, ?_⟩
+  · constructor
+    · intro h
+      by_cases hp : old <+: f
+      · refine ⟨hp, ?_⟩
+        rintro rfl
+        apply h
+        unfold replaceC
+        rw [if_neg (by simpa [take_eq_iff_prefix] using hp)]
+        by_cases ha : a.take new.length = new
+        · rw [if_pos ha, key f hp, key a ((take_eq_iff_prefix _ _).mp ha)]
+        · rw [if_neg ha, key f hp]
+      · exfalso; apply h
+        unfold replaceC
+        rw [if_pos (by simpa [take_eq_iff_prefix] using hp)]
+    · rintro ⟨hp, hne⟩ h
+      unfold replaceC at h
+      rw [if_neg (by simpa [take_eq_iff_prefix] using hp)] at h
+      have h1 := congrArg Prod.fst h
+      simp only at h1
+      conv at h1 => rhs; rw [← key f hp]
+      exact hne (List.append_cancel_right h1)
+  · intro hp
+    unfold replaceC
+    rw [if_neg (by simpa [take_eq_iff_prefix] using hp)]
+  · intro hp
+    unfold replaceC
+    rw [if_pos (by simpa [take_eq_iff_prefix] using hp)]
+
+example : replaceC [['a'], ['b'], ['c']] [['c']] [['a'], ['b']] [['x']] = ([['x'], ['c']], [['c']]) := by decide
+
+/-- The local name is untouched unless OLD is a component prefix of it. -/
+theorem C18_keeps_local (f a old new : List Str) (h : ¬ old <+: a) : (replaceC f a old new).2 = a := by
+  unfold replaceC
+  split
+  · rfl
+  · simp only
+    rw [if_neg (by simpa [take_eq_iff_prefix] using h)]
+
+example : ¬ [['a'], ['b']] <+: [['b']] := by decide
+
+/-- When the import is rewritten and the local name begins with OLD, the local name is rewritten by
+    the same substitution as the full name. -/
+theorem C18_renames_together (f a old new : List Str) (hf : old <+: f) (ha : old <+: a) :
+    replaceC f a old new = (new ++ f.drop old.length, new ++ a.drop old.length) := by
+  unfold replaceC
+  rw [if_neg (by simpa [take_eq_iff_prefix] using hf), if_pos ((take_eq_iff_prefix _ _).mpr ha)]
+
+example : [['a']] <+: [['a'], ['b']] ∧ [['a']] <+: [['a'], ['b']] := by decide
+
+/-! ## 2. string level: `Import.replace`, `Import.split` as coded -/
+
+/-- "the dotted path is OLD or begins with OLD followed by a dot" = component prefix of the `split('.')`s. -/
+theorem C18_under_iff (o f : Str) : splitDot o <+: splitDot f ↔ (f = o ∨ (o ++ ['.']) <+: f) := under_iff o f
+
+/-- never a mere character prefix: `foo` / `foobar`, `a.b` / `a.bc` -/
+theorem trap_foo_foobar :
+    ['f','o','o'] <+: ['f','o','o','b','a','r'] ∧ ¬ splitDot ['f','o','o'] <+: splitDot ['f','o','o','b','a','r'] ∧
+    (Imp.mk ['f','o','o','b','a','r'] ['f','o','o','b','a','r']).replace ['f','o','o'] ['q'] =
+      Imp.mk ['f','o','o','b','a','r'] ['f','o','o','b','a','r'] := by decide
+
+theorem trap_ab_abc :
+    ['a','.','b'] <+: ['a','.','b','c'] ∧ ¬ splitDot ['a','.','b'] <+: splitDot ['a','.','b','c'] ∧
+    (Imp.mk ['a','.','b','c'] ['a','.','b','c']).replace ['a','.','b'] ['z'] = Imp.mk ['a','.','b','c'] ['a','.','b','c'] ∧
+    (Imp.mk ['a','.','b','.','c'] ['c']).replace ['a','.','b'] ['z'] = Imp.mk ['z','.','c'] ['c'] := by decide
+
+theorem splitDot_no_dot (s : Str) : ∀ p ∈ splitDot s, '.' ∉ p := by
+  induction s with
+  | nil => simp [splitDot]
+  | cons c cs ih =>
+    unfold splitDot
+    split
+    · intro p hp
+      simp at hp
+      rcases hp with rfl | hp
+      · simp
+      · exact ih p hp
+    · rename_i hc
+      split
+      · intro p hp; simp at hp; subst hp; simp; exact fun h => hc h.symm
+      · rename_i a as h
+        intro p hp
+        simp at hp
+        rw [h] at ih
+        rcases hp with rfl | hp
+        · have := ih a (by simp)
+          simp; exact ⟨fun h => hc h.symm, this⟩
+        · exact ih p (by simp [hp])
+
+/-- `Import.replace` on strings, in the property's own words. -/
+theorem C18_exact_str (imp : Imp) (o n : Str) :
+    (imp.fullname = o → (imp.replace o n).fullname = n) ∧
+    (∀ r, imp.fullname = o ++ '.' :: r → (imp.replace o n).fullname = n ++ '.' :: r) ∧
+    (¬ (imp.fullname = o ∨ (o ++ ['.']) <+: imp.fullname) → imp.replace o n = imp) := by
+  refine ⟨?_, ?_, ?_⟩
+  · intro h
+    unfold Imp.replace
+    simp only [h, List.take_length, ne_eq, not_true_eq_false, if_false]
+    rw [(C18_exact _ _ _ _).2.1 (List.prefix_refl _)]
+    simp
+  · intro r h
+    have hp : splitDot o <+: splitDot imp.fullname := (under_iff o _).mpr (Or.inr ⟨r, by simp [h]⟩)
+    unfold Imp.replace
+    simp only
+    rw [if_neg (by simpa [take_eq_iff_prefix] using hp), (C18_exact _ _ _ _).2.1 hp, h, splitDot_append_dot]
+    simp only [List.drop_left]
+    rw [joinDot_append _ _ (splitDot_ne_nil n) (splitDot_ne_nil r)]
+    simp
+  · intro h
+    have hp : ¬ splitDot o <+: splitDot imp.fullname := fun hp => h ((under_iff o _).mp hp)
+    unfold Imp.replace
+    simp only
+    rw [if_pos (by simpa [take_eq_iff_prefix] using hp)]
+
+example : (Imp.mk ['a','a','.','b','b','.','c'] ['c']).replace ['a','a','.','b','b'] ['x','.','y'] =
+    Imp.mk ['x','.','y','.','c'] ['c'] := by decide
+
+/-- The local name survives every rename whose OLD is not a dotted prefix of it ... -/
+theorem C18_keeps_local_str (imp : Imp) (o n : Str)
+    (h : ¬ (imp.importAs = o ∨ (o ++ ['.']) <+: imp.importAs)) :
+    (imp.replace o n).importAs = imp.importAs := by
+  have hp : ¬ splitDot o <+: splitDot imp.importAs := fun hp => h ((under_iff o _).mp hp)
+  unfold Imp.replace
+  simp only
+  split
+  · rfl
+  · simp only
+    rw [C18_keeps_local _ _ _ _ hp]
+    simp
+
+/-- ... and the statement that is printed (`Import.split`) binds exactly the `Import`'s local name:
+    `import_as` when it is present, else `member_name`. -/
+theorem getD_ite_as (a m : Str) : (if a = m then none else some a).getD m = a := by
+  split <;> simp_all
+
+theorem C18_split_binds (imp : Imp) : imp.split.boundName = imp.importAs := by
+  unfold Imp.split Split.boundName
+  by_cases h : imp.importAs = imp.fullname
+  · simp [h]
+  · simp only [h, if_false]
+    exact getD_ite_as _ _
+
+/-- `as` is emitted exactly when it is needed. -/
+theorem C18_as_iff (imp : Imp) :
+    imp.split.importAs = none ↔ (imp.importAs = imp.fullname ∨ imp.importAs = imp.split.memberName) := by
+  unfold Imp.split
+  by_cases h : imp.importAs = imp.fullname
+  · simp [h]
+  · simp only [h, if_false, false_or]
+    split <;> simp_all
+
+/-- keeps-local, end to end: after a rename whose OLD is not a prefix of the local name, the printed
+    statement still binds the local name the code uses (adding `as` when the member name differs). -/
+theorem C18_keeps_local_printed (imp : Imp) (o n : Str)
+    (h : ¬ (imp.importAs = o ∨ (o ++ ['.']) <+: imp.importAs)) :
+    (imp.replace o n).split.boundName = imp.importAs := by
+  rw [C18_split_binds, C18_keeps_local_str imp o n h]
+
+example : ((Imp.mk ['a','.','b'] ['b']).replace ['a','.','b'] ['x','.','y']).split =
+    ⟨some ['x'], ['y'], some ['b']⟩ := by decide
+
+/-- Partial well-formedness of the alias (full statement — "the alias of a from- or aliased import is never
+    dotted" — fails on the unchanged code, see `D1_witness`): an undotted local name stays undotted when NEW is
+    undotted or OLD is not the local name. -/
+theorem C18_alias_wellformed_partial (imp : Imp) (o n : Str) (ha : '.' ∉ imp.importAs)
+    (h : '.' ∉ n ∨ imp.importAs ≠ o) : '.' ∉ (imp.replace o n).importAs := by
+  by_cases hu : imp.importAs = o ∨ (o ++ ['.']) <+: imp.importAs
+  · rcases hu with hu | ⟨r, hr⟩
+    · rcases h with h | h
+      · unfold Imp.replace
+        simp only
+        split
+        · exact ha
+        · simp only
+          unfold replaceC
+          split
+          · simp; exact ha
+          · simp only [hu, List.take_length, if_true, List.drop_length, List.append_nil, joinDot_splitDot]
+            exact h
+      · exact absurd hu h
+    · exfalso; apply ha; rw [← hr]; simp
+  · rw [C18_keeps_local_str imp o n hu]; exact ha
+
+example : '.' ∉ ((Imp.mk ['m','.','a'] ['a']).replace ['a'] ['z']).importAs := by decide
+
+/-- C18-D1 (known finding): `from qg import qg` renamed by qg -> zu.qg gets a dotted alias. -/
+theorem D1_witness :
+    ((Imp.mk ['q','g','.','q','g'] ['q','g']).replace ['q','g'] ['z','u','.','q','g']).split =
+      ⟨some ['z','u','.','q','g'], ['q','g'], some ['z','u','.','q','g']⟩ := by decide
+
+/-! ## 3. the body: `re.sub(r"\bK\b", V, text)` -/
+
+/-- Specification of the regex scan against the tokenisation into maximal `\w` / non-`\w` runs: for a key
+    that begins and ends with a word character (every dotted identifier), the scan is the leftmost
+    non-overlapping replacement of the token sequence `runs K`; nothing else is touched.  With
+    `g = true` (fixes/C18-D3.diff) occurrences whose previous character is a dot are skipped. -/
+theorem C18_wordReplace_spec (g : Bool) (K V s : Str) (hh : wOpt K.head? = true) (hl : wOpt K.getLast? = true) :
+    wordReplace g K V s = tokReplace g (runs K) V (runs s) :=
+  wordReplace_eq_tokReplace g K V s hh hl
+
+theorem runs_word (K : Str) (hne : K ≠ []) (hw : ∀ c ∈ K, isW c = true) : runs K = [K] := by
+  cases K with
+  | nil => exact absurd rfl hne
+  | cons k K' =>
+    have hall : ∀ x ∈ K', (fun d => isW d == isW k) x = true := by
+      intro x hx; simp [hw x (by simp [hx]), hw k (by simp)]
+    have h1 : K'.takeWhile (fun d => isW d == isW k) = K' := by
+      have := List.takeWhile_append_of_pos (p := fun d => isW d == isW k) (l₁ := K') (l₂ := []) hall
+      simpa using this
+    have h2 : K'.dropWhile (fun d => isW d == isW k) = [] := by
+      have := List.dropWhile_append_of_pos (p := fun d => isW d == isW k) (l₁ := K') (l₂ := []) hall
+      simpa using this
+    rw [runs_cons, h1, h2]; simp [runs]
+
+theorem tokScan_single (K V : Str) :
+    ∀ (ts : List Str) (prev : Option Char),
+      tokScan false [K] V 0 prev ts = (ts.map (fun t => if t = K then V else t)).flatten := by
+  intro ts
+  induction ts with
+  | nil => intro prev; simp [tokScan]
+  | cons t ts ih =>
+    intro prev
+    by_cases h : t = K
+    · subst h
+      rw [tokScan]
+      simp [List.isPrefixOf, ih]
+    · have h' : ¬ K = t := fun e => h e.symm
+      rw [tokScan]
+      simp [List.isPrefixOf, h, h', ih]
+
+/-- For a single identifier `K`: exactly the maximal word-runs equal to `K` are replaced — an identifier that
+    merely starts with `K` (`foobar` for `foo`) is a different run and stays. -/
+theorem C18_wordReplace_ident (K V s : Str) (hne : K ≠ []) (hw : ∀ c ∈ K, isW c = true) :
+    wordReplace false K V s = ((runs s).map (fun t => if t = K then V else t)).flatten := by
+  have hh : wOpt K.head? = true := by
+    cases K with
+    | nil => exact absurd rfl hne
+    | cons k K' => simpa [wOpt] using hw k (by simp)
+  have hl : wOpt K.getLast? = true := by
+    rw [List.getLast?_eq_some_getLast hne]
+    simpa [wOpt] using hw _ (List.getLast_mem hne)
+  rw [wordReplace_eq_tokReplace false K V s hh hl, runs_word K hne hw]
+  exact tokScan_single K V (runs s) none
+
+example : wordReplace false ['f','o','o'] ['q'] ['f','o','o','b','a','r','.','x',' ','f','o','o','.','y'] =
+    ['f','o','o','b','a','r','.','x',' ','q','.','y'] := by decide
+
+/-- an identifier: non-empty, word characters only -/
+def IsIdent (p : Str) : Prop := p ≠ [] ∧ ∀ c ∈ p, isW c = true
+
+theorem joinDot_head (ps : List Str) (hne : ps ≠ []) (hid : ∀ p ∈ ps, IsIdent p) :
+    wOpt (joinDot ps).head? = true := by
+  cases ps with
+  | nil => exact absurd rfl hne
+  | cons p ps' =>
+    obtain ⟨hp, hw⟩ := hid p (by simp)
+    cases p with
+    | nil => exact absurd rfl hp
+    | cons c cs =>
+      have : (joinDot ((c :: cs) :: ps')).head? = some c := by
+        cases ps' with
+        | nil => simp [joinDot]
+        | cons q qs => simp [joinDot]
+      rw [this]; simpa [wOpt] using hw c (by simp)
+
+theorem joinDot_getLast (ps : List Str) (hne : ps ≠ []) (hid : ∀ p ∈ ps, IsIdent p) :
+    wOpt (joinDot ps).getLast? = true := by
+  induction ps with
+  | nil => exact absurd rfl hne
+  | cons p ps' ih =>
+    cases ps' with
+    | nil =>
+      obtain ⟨hp, hw⟩ := hid p (by simp)
+      simp only [joinDot]
+      rw [List.getLast?_eq_some_getLast hp]
+      simpa [wOpt] using hw _ (List.getLast_mem hp)
+    | cons q qs =>
+      have := ih (by simp) (fun x hx => hid x (by simp [hx]))
+      rw [joinDot_cons_ne _ _ (by simp), List.getLast?_append]
+      have hne2 : ('.' :: joinDot (q :: qs)).getLast? = (joinDot (q :: qs)).getLast? := by
+        cases hj : joinDot (q :: qs) with
+        | nil =>
+          have := joinDot_head (q :: qs) (by simp) (fun x hx => hid x (by simp [hx]))
+          rw [hj] at this; simp [wOpt] at this
+        | cons a as => simp [List.getLast?_cons_cons]
+      rw [hne2]
+      cases hj : (joinDot (q :: qs)).getLast? with
+      | none => rw [hj] at this; simp [wOpt] at this
+      | some x => rw [hj] at this; simpa using this
+
+/-- A reference to the local name `a` (followed by anything that does not continue the identifier) is rewritten,
+    at its head, to exactly the renamed local name of `C18_renames_together`; scanning then goes on behind it. -/
+theorem C18_ref_rewritten (g : Bool) (old new a : List Str) (post : Str)
+    (hold : old ≠ []) (hnew : new ≠ [])
+    (hid : ∀ p ∈ old, IsIdent p) (hpre : old <+: a) (hpost : wOpt post.head? = false) :
+    ∃ rest, joinDot a = joinDot old ++ rest ∧
+      joinDot (new ++ a.drop old.length) = joinDot new ++ rest ∧
+      wordReplace g (joinDot old) (joinDot new) (joinDot a ++ post) =
+        joinDot new ++ scan g (joinDot old) (joinDot new) 0 (lastOr none (joinDot old)) (rest ++ post) := by
+  obtain ⟨r, hr⟩ := hpre
+  subst hr
+  refine ⟨if r = [] then [] else '.' :: joinDot r, ?_, ?_, ?_⟩
+  · by_cases h : r = []
+    · simp [h]
+    · simp [h, joinDot_append _ _ hold h]
+  · by_cases h : r = []
+    · simp [h]
+    · simp [h, joinDot_append _ _ hnew h]
+  · have hj : joinDot (old ++ r) = joinDot old ++ (if r = [] then [] else '.' :: joinDot r) := by
+      by_cases h : r = []
+      · simp [h]
+      · simp [h, joinDot_append _ _ hold h]
+    have hK1 := joinDot_head old hold hid
+    have hK2 := joinDot_getLast old hold hid
+    have hm : matchAt g (joinDot old) none (joinDot old ++ ((if r = [] then [] else '.' :: joinDot r) ++ post)) = true := by
+      cases hK : joinDot old with
+      | nil => rw [hK] at hK1; simp [wOpt] at hK1
+      | cons k K' =>
+        rw [hK] at hK1 hK2
+        have hk : isW k = true := by simpa [wOpt] using hK1
+        have hnext : wOpt ((if r = [] then [] else '.' :: joinDot r) ++ post).head? = false := by
+          by_cases h : r = []
+          · simp [h, hpost]
+          · simp only [h, if_false, List.cons_append, List.head?_cons, wOpt]; decide
+        have hp : (k :: K').isPrefixOf ((k :: K') ++ ((if r = [] then [] else '.' :: joinDot r) ++ post)) = true :=
+          List.isPrefixOf_iff_prefix.mpr ⟨_, rfl⟩
+        unfold matchAt
+        simp only [List.drop_left, hK2, hnext, hk, hp]
+        simp [wOpt]
+    unfold wordReplace
+    rw [hj, List.append_assoc, scan_match g _ _ none _ hm]
+    simp
+
+example : wordReplace false ['a','.','b'] ['x'] ['a','.','b','.','c','(',')'] = ['x','.','c','(',')'] := by decide
+
+/-! ## 4. maps with several entries -/
+
+theorem transformImport_cons (kv : Str × Str) (m : RMap) (imp : Imp) :
+    transformImport (kv :: m) imp = transformImport m (imp.replace kv.1 kv.2) := rfl
+
+theorem transformImport_append (m1 m2 : RMap) (imp : Imp) :
+    transformImport (m1 ++ m2) imp = transformImport m2 (transformImport m1 imp) := by
+  simp [transformImport, List.foldl_append]
+
+/-- An import none of whose OLDs is a dotted prefix of its path is returned unchanged, whatever the map. -/
+theorem C18_no_match_unchanged (m : RMap) (imp : Imp)
+    (h : ∀ kv ∈ m, ¬ (imp.fullname = kv.1 ∨ (kv.1 ++ ['.']) <+: imp.fullname)) :
+    transformImport m imp = imp := by
+  induction m with
+  | nil => rfl
+  | cons kv m ih =>
+    rw [transformImport_cons, (C18_exact_str imp kv.1 kv.2).2.2 (h kv (by simp))]
+    exact ih (fun x hx => h x (by simp [hx]))
+
+/-- Iteration order decides between nested entries: the first entry (in dict order) whose OLD matches is applied;
+    a later entry applies only if its OLD is a dotted prefix of the *rewritten* path. -/
+theorem C18_first_match (pre post : RMap) (k v : Str) (imp : Imp)
+    (hpre : ∀ kv ∈ pre, ¬ (imp.fullname = kv.1 ∨ (kv.1 ++ ['.']) <+: imp.fullname))
+    (hpost : ∀ kv ∈ post, ¬ ((imp.replace k v).fullname = kv.1 ∨ (kv.1 ++ ['.']) <+: (imp.replace k v).fullname)) :
+    transformImport (pre ++ (k, v) :: post) imp = imp.replace k v := by
+  rw [transformImport_append, C18_no_match_unchanged pre imp hpre, transformImport_cons,
+    C18_no_match_unchanged post _ hpost]
+
+/-- `a.b -> x`, `a.b.c -> y` as coded: whichever comes first in the dict wins for `a.b.c.d`. -/
+theorem nested_order_witness :
+    transformImport [(['a','.','b'], ['x']), (['a','.','b','.','c'], ['y'])] ⟨['a','.','b','.','c','.','d'], ['d']⟩
+      = ⟨['x','.','c','.','d'], ['d']⟩ ∧
+    transformImport [(['a','.','b','.','c'], ['y']), (['a','.','b'], ['x'])] ⟨['a','.','b','.','c','.','d'], ['d']⟩
+      = ⟨['y','.','d'], ['d']⟩ ∧
+    transformText false [(['a','.','b'], ['x']), (['a','.','b','.','c'], ['y'])] ['a','.','b','.','c','.','d']
+      = ['x','.','c','.','d'] ∧
+    transformText false [(['a','.','b','.','c'], ['y']), (['a','.','b'], ['x'])] ['a','.','b','.','c','.','d']
+      = ['y','.','d'] := by decide
+
+/-- Component view of the full name after one `replace`. -/
+theorem replace_fullname_components (imp : Imp) (o n : Str) :
+    splitDot (imp.replace o n).fullname =
+      (replaceC (splitDot imp.fullname) (splitDot imp.fullname) (splitDot o) (splitDot n)).1 := by
+  unfold Imp.replace replaceC
+  simp only
+  split
+  · rfl
+  · simp only
+    apply splitDot_joinDot
+    · simp [splitDot_ne_nil]
+    · intro p hp
+      simp only [List.mem_append] at hp
+      rcases hp with hp | hp
+      · exact splitDot_no_dot n p hp
+      · exact splitDot_no_dot _ p (List.mem_of_mem_drop hp)
+
+/-- the fold on component lists -/
+def transformC (m : List (List Str × List Str)) (f : List Str) : List Str :=
+  m.foldl (fun f kv => (replaceC f f kv.1 kv.2).1) f
+
+theorem C18_fullname_components (m : RMap) (imp : Imp) :
+    splitDot (transformImport m imp).fullname =
+      transformC (m.map fun kv => (splitDot kv.1, splitDot kv.2)) (splitDot imp.fullname) := by
+  induction m generalizing imp with
+  | nil => rfl
+  | cons kv m ih =>
+    rw [transformImport_cons, ih]
+    simp only [List.map_cons, transformC, List.foldl_cons]
+    rw [replace_fullname_components]
+
+/-- In a universe where every NEW aliases its OLD, the object an import's path denotes is the same after the
+    whole fold — for every map, nested or not, in every iteration order. -/
+theorem C18_alias_invariant {Obj : Type} (u : Universe Obj) (m : List (List Str × List Str))
+    (hal : ∀ kv ∈ m, Aliases u kv.1 kv.2) (f rest : List Str) :
+    u (transformC m f ++ rest) = u (f ++ rest) := by
+  induction m generalizing f with
+  | nil => rfl
+  | cons kv m ih =>
+    simp only [transformC, List.foldl_cons]
+    have := ih (fun x hx => hal x (by simp [hx])) (replaceC f f kv.1 kv.2).1
+    simp only [transformC] at this
+    rw [this]
+    by_cases hp : kv.1 <+: f
+    · rw [(C18_exact f f kv.1 kv.2).2.1 hp]
+      obtain ⟨t, ht⟩ := hp
+      subst ht
+      simp only [List.drop_left, List.append_assoc]
+      exact hal kv (by simp) (t ++ rest)
+    · rw [(C18_exact f f kv.1 kv.2).2.2 hp]
+
+/-- One import, one reference through its local name: the renamed reference, looked up through the renamed
+    import, denotes the same object — provided OLD reaches the reference only through the local name
+    (the property's program domain). -/
+theorem C18_lookup_preserved {Obj : Type} (u : Universe Obj) (f a old new ref : List Str)
+    (hal : Aliases u old new) (href : a <+: ref)
+    (hdom : (old <+: f ∧ old <+: a) ∨ ¬ old <+: ref) :
+    lookup u (replaceC f a old new).1 (replaceC f a old new).2 (renameRef old new ref) = lookup u f a ref := by
+  obtain ⟨attrs, rfl⟩ := href
+  rcases hdom with ⟨hf, ha⟩ | hnr
+  · rw [C18_renames_together f a old new hf ha]
+    obtain ⟨rf, rfl⟩ := hf
+    obtain ⟨ra, rfl⟩ := ha
+    have h1 : old.isPrefixOf (old ++ (ra ++ attrs)) = true := by
+      rw [List.isPrefixOf_iff_prefix]; exact ⟨ra ++ attrs, rfl⟩
+    have h2 : (new ++ ra).isPrefixOf (new ++ (ra ++ attrs)) = true := by
+      rw [List.isPrefixOf_iff_prefix]; exact ⟨attrs, by simp⟩
+    have h3 : (old ++ ra).isPrefixOf (old ++ (ra ++ attrs)) = true := by
+      rw [List.isPrefixOf_iff_prefix]; exact ⟨attrs, by simp⟩
+    simp only [lookup, renameRef, List.drop_left, List.append_assoc]
+    simp only [h1, h3, if_true, h2]
+    have e1 : List.drop (new ++ ra).length (new ++ (ra ++ attrs)) = attrs := by
+      rw [← List.append_assoc, List.drop_left]
+    have e2 : List.drop (old ++ ra).length (old ++ (ra ++ attrs)) = attrs := by
+      rw [← List.append_assoc, List.drop_left]
+    rw [e1, e2]
+    exact hal (rf ++ attrs)
+  · have hna : ¬ old <+: a := fun ⟨t, ht⟩ => hnr ⟨t ++ attrs, by simp [← ht]⟩
+    have h1 : old.isPrefixOf (a ++ attrs) = false := by
+      rw [Bool.eq_false_iff]; intro h; exact hnr (List.isPrefixOf_iff_prefix.mp h)
+    rw [C18_keeps_local f a old new hna]
+    simp only [renameRef, h1]
+    by_cases hf : old <+: f
+    · rw [(C18_exact f a old new).2.1 hf]
+      obtain ⟨rf, rfl⟩ := hf
+      have h3 : a.isPrefixOf (a ++ attrs) = true := by
+        rw [List.isPrefixOf_iff_prefix]; exact ⟨attrs, rfl⟩
+      simp only [lookup, h3, if_true, List.drop_left, List.append_assoc, Bool.false_eq_true, if_false]
+      exact hal (rf ++ attrs)
+    · rw [(C18_exact f a old new).2.2 hf]
+      simp
+
+/-- outside that domain the reference breaks (`import a` + `a.b.x` with `a.b -> n`; `from m import a` + `a.x`
+    with `a -> n`): the renamed reference no longer goes through any local name. -/
+theorem lookup_domain_witness :
+    renameRef [['a'], ['b']] [['n']] [['a'], ['b'], ['x']] = [['n'], ['x']] ∧
+    (replaceC [['a']] [['a']] [['a'], ['b']] [['n']]) = ([['a']], [['a']]) ∧
+    ¬ [['a']] <+: [['n'], ['x']] ∧
+    renameRef [['a']] [['n']] [['a'], ['x']] = [['n'], ['x']] ∧
+    (replaceC [['m'], ['a']] [['a']] [['a']] [['n']]) = ([['m'], ['a']], [['a']]) := by decide
+
+/-! ## 5. excluded regions on the unchanged code (known findings), proved on the model -/
+
+/-- C18-D2: nested map `{qa.mod: zn.y, qa: zz}` in this order and `from qa.mod import value as qa`:
+    the alias stays `qa` while the body's `qa` becomes `zz`. -/
+theorem D2_witness :
+    transformImport [(['q','a','.','m','o','d'], ['z','n','.','y']), (['q','a'], ['z','z'])]
+        ⟨['q','a','.','m','o','d','.','v'], ['q','a']⟩ = ⟨['z','n','.','y','.','v'], ['q','a']⟩ ∧
+    transformText false [(['q','a','.','m','o','d'], ['z','n','.','y']), (['q','a'], ['z','z'])]
+        ['p','(','q','a',')'] = ['p','(','z','z',')'] := by decide
+
+/-- C18-D3: `{qp.cc: zy.qp, qp: zy.yy}`: the import becomes `zy.qp.b2`, the body reference `zy.zy.yy.b2`;
+    with the dot guard of fixes/C18-D3.diff import and body agree. -/
+theorem D3_witness :
+    transformImport [(['q','p','.','c','c'], ['z','y','.','q','p']), (['q','p'], ['z','y','.','y','y'])]
+        ⟨['q','p','.','c','c','.','b','2'], ['q','p','.','c','c','.','b','2']⟩
+      = ⟨['z','y','.','q','p','.','b','2'], ['z','y','.','q','p','.','b','2']⟩ ∧
+    transformText false [(['q','p','.','c','c'], ['z','y','.','q','p']), (['q','p'], ['z','y','.','y','y'])]
+        ['q','p','.','c','c','.','b','2','.','f'] = ['z','y','.','z','y','.','y','y','.','b','2','.','f'] ∧
+    transformText true [(['q','p','.','c','c'], ['z','y','.','q','p']), (['q','p'], ['z','y','.','y','y'])]
+        ['q','p','.','c','c','.','b','2','.','f'] = ['z','y','.','q','p','.','b','2','.','f'] := by decide
+
+/-- C18-D3b: `import qa.qa` with `{qa: zn}`. -/
+theorem D3b_witness :
+    transformImport [(['q','a'], ['z','n'])] ⟨['q','a','.','q','a'], ['q','a','.','q','a']⟩
+      = ⟨['z','n','.','q','a'], ['z','n','.','q','a']⟩ ∧
+    transformText false [(['q','a'], ['z','n'])] ['q','a','.','q','a','.','f'] = ['z','n','.','z','n','.','f'] ∧
+    transformText true [(['q','a'], ['z','n'])] ['q','a','.','q','a','.','f'] = ['z','n','.','q','a','.','f'] := by decide
+
+end Pfb.C18
